@@ -80,16 +80,20 @@ def representatives(seed, variant=0):
             if classify(t) == "error":
                 reps["error"] = t
         elif "fatal" not in reps:
-            lines = p.text.split("\n")
-            if fk == "garbage-stmt":
-                lines.insert(12, "42;")
-            elif fk == "empty-if":
-                lines.insert(12, "#if")
-            else:
-                lines.append("];")
-            t = "\n".join(lines)
-            if classify(t) == "fatal":
-                reps["fatal"] = t
+            # the chosen way first, then the others (a tree under test may answer one of them with an internal error: C05's business)
+            for fk2 in [fk] + [x for x in FATAL_KINDS if x != fk]:
+                lines = p.text.split("\n")
+                if fk2 == "garbage-stmt":
+                    lines.insert(12, "42;")
+                elif fk2 == "empty-if":
+                    lines.insert(12, "#if")
+                else:
+                    lines.append("];")
+                t = "\n".join(lines)
+                if classify(t) == "fatal":
+                    reps["fatal"] = t
+                    fk = fk2
+                    break
         if len(reps) == 4:
             return reps, (nk, ek, fk)
     raise core.HarnessError("could not build class representatives %s: %s" % ((nk, ek, fk), sorted(reps)))
